@@ -1102,6 +1102,37 @@ def interleave_cases():
                        "pd": 0, "ops": [list(o) for o in ops]}
 
 
+def interrupt_cases():
+    """A timed transition cut short by a request that IS accepted in that state, then ticked past the point where the abandoned
+    timer would have fired: the state may only change through a request or the completion of its own pending transition."""
+    for typ in SERVICES:
+        system = typ in SYSTEM_SERVICES
+        base = {"kind": "service", "type": typ, "declare": not system, "extra": [], "listener": False, "pd": 0}
+        for rd in (1, 2, 3):
+            for pos in range(rd + 1):  # disable (the only request accepted while RESTARTING) at each tick position of the window
+                ops = [["req", "restart"]] + [["tick"]] * pos + [["req", "disable"]] + [["tick"]] * (rd + 3) + [["payload"]] + \
+                      [["req", "enable"]] + [["tick"]] * (rd + 2) + [["req", "start"]] + [["tick"]] * (rd + 2) + [["payload"]]
+                yield dict(base, rd=rd, ops=[list(o) for o in ops])
+        for verb in ("stop", "pause", "restart", "disable"):  # accepted while the service is RUNNING and its health FIXING
+            for pos in (0, 1):
+                back = {"stop": ["req", "start"], "pause": ["req", "resume"], "restart": ["tick"], "disable": ["req", "enable"]}[verb]
+                ops = [["req", "fix"]] + [["tick"]] * pos + [["req", verb]] + [["tick"]] * 4 + [["payload"], back] + [["tick"]] * 3 + \
+                      [["req", "start"], ["tick"], ["payload"]]
+                yield dict(base, rd=1, ops=[list(o) for o in ops])
+    for typ in APPS:
+        base = {"kind": "application", "type": typ, "declare": typ in EXTRA_APPS, "extra": [], "listener": False, "rd": None, "pd": 0}
+        for pos in (0, 1, 2):  # uninstall and re-install while INSTALLING: the second installation runs its own full course
+            ops = [["uninstall"], ["install"]] + [["tick"]] * pos + [["uninstall"], ["install"]] + [["tick"]] * 5 + [["payload"]]
+            yield dict(base, ops=[list(o) for o in ops])
+            ops = [["uninstall"], ["install"]] + [["tick"]] * pos + [["uninstall"]] + [["tick"]] * 5 + [["req", "scan"], ["payload"]]
+            yield dict(base, ops=[list(o) for o in ops])
+        for pos in (0, 1):  # close / uninstall-then-reinstall while FIXING
+            ops = [["req", "fix"]] + [["tick"]] * pos + [["req", "close"]] + [["tick"]] * 4 + [["payload"], ["req", "execute"], ["tick"]]
+            yield dict(base, ops=[list(o) for o in ops])
+            ops = [["req", "fix"]] + [["tick"]] * pos + [["uninstall"], ["install"]] + [["tick"]] * 5 + [["payload"]]
+            yield dict(base, ops=[list(o) for o in ops])
+
+
 # open findings whose exclusion-by-construction the generators switch on (carried in case["excl"] so that replays of the
 # findings themselves, which do not carry it, still reproduce)
 EXCLUDABLE = {"C13-nmap-uninstalled-crash", "C13-db-fix-restore-crash"}
@@ -1128,6 +1159,7 @@ def worker(ctx: Ctx):
     enum_run(ctx, timing_cases(), run_case)
     enum_run(ctx, tag(state_sweep_cases()), run_case)
     enum_run(ctx, tag(interleave_cases()), run_case)
+    enum_run(ctx, tag(interrupt_cases()), run_case)
     enum_run(ctx, tag(shared_port_cases()), run_case)
     enum_run(ctx, tag(power_transition_cases()), run_case)
     enum_run(ctx, tag(exhaustive_cases(depth)), run_case)
